@@ -10,7 +10,7 @@ OUTSIDE = 'more than 3 points/channels/sub-frames/frames; strings longer than 17
 ASSUMPTIONS = ['POINT:RATE=100 and ANALOG:RATE=100*S are concrete (they fix loop trip counts)', 'names are printable non-space ASCII; descriptions printable ASCII']
 
 def base(**kw):
-    c = dict(P=2, C=1, S=2, F=2, order=0, ex_type=0, ex_group=0, ex_ndim=0, ex_n=0, ex_nlen=0, ex_dlen=0, ex_slen=0, symnames=0, norate=0, pad=-1, point_scale=0, concname=0)
+    c = dict(P=2, C=1, S=2, F=2, order=0, ex_type=0, ex_group=0, ex_ndim=0, ex_n=0, ex_nlen=0, ex_dlen=0, ex_slen=0, symnames=0, norate=0, pad=-1, point_scale=0, concname=0, prate4=0)
     c.update(kw); return c
 
 def ex_variants(tier):
@@ -64,6 +64,11 @@ def jobs(tier, seed):
             for t in (2, 4, -1):
                 kw = dict(('ex_d%d' % i, d) for i, d in enumerate(dims))
                 J(P=1, C=0, S=1, F=1, order=k % 3, ex_group=0, ex_type=t, ex_ndim=rank, ex_n=n, ex_nlen=2, ex_dlen=k % 2, ex_slen=1 + k % 2, **kw); out[-1]['sweep'] = True; k += 1
+    # rates that are not whole numbers: POINT:RATE in quarter-Hz steps from 1 to 6 Hz, ANALOG:RATE = 1..3 times that (the reload derives the
+    # sub-frame count from the ratio of the two rates)
+    for q in range(4, 25):
+        for S_ in (1, 2, 3):
+            J(P=1, C=1, S=S_, F=2, order=q % 3, prate4=q); out[-1]['sweep'] = True
     # analog-only content without a POINT:RATE (one sub-frame per frame)
     for order in (0, 1, 2): J(P=0, C=2, S=1, F=2, order=order, norate=1)
     # alignment sweep: the parameter section length goes through all 512 residues modulo the block size (0.3 s per save/load);
